@@ -64,6 +64,11 @@ fn main() {
                 Cfg { ents: three(), clients: clients(2), max_size: vec![1200; 2], ..Default::default() },
                 Profile { steps: 60, comps: vec!["A", "B"], ..Default::default() },
             ),
+            "every" => (
+                // TickPolicy::EveryFrame: the plugin's own increment_tick system drives the tick
+                Cfg { ents: three(), clients: clients(2), max_size: vec![1200; 2], every_frame: true, ..Default::default() },
+                Profile { steps: 60, comps: vec!["A", "B", "O"], sess: true, ..Default::default() },
+            ),
             "split" => (
                 // small maximum message size and padded components: one tick's mutations need several messages
                 Cfg { ents: three(), clients: clients(2), max_size: vec![100, 220], ..Default::default() },
